@@ -233,7 +233,10 @@ func genC17(seed uint64, run int, tier string) *Case {
 			case x < 4:
 				opts = append(opts, EOpt{Kind: "var", Name: pick(r, []string{"x1", "x2", "x3"}), Var: pick(r, c17ValidVars)})
 			case x < 6:
-				opts = append(opts, EOpt{Kind: "var", Name: pick(r, []string{"a", "b", "x1", "context", "ucum"}), Var: pick(r, c17ValidVars)})
+				opts = append(opts, EOpt{Kind: "var", Name: pick(r, []string{"a", "b", "x1", "context", "ucum",
+					// names that only LOOK like another name (a name is taken literally: nothing is unquoted or folded),
+					// and names other engines predefine but this one does not
+					"`context`", "'ucum'", "`a`", "'b'", "`x1`", "Context", "UCUM", " a", "resource", "rootResource"}), Var: pick(r, c17ValidVars)})
 			case x < 8:
 				opts = append(opts, EOpt{Kind: "var", Name: pick(r, []string{"y1", "a", "x1"}), Var: pick(r, c17BadVars)})
 			default:
@@ -255,7 +258,7 @@ func genC17(seed uint64, run int, tier string) *Case {
 		switch x := r.n(20); {
 		case x < 4:
 			v := pick(r, c17ValidVars)
-			op.Tmpl, op.Name = "var", pick(r, []string{"a", "b"})
+			op.Tmpl, op.Name = "var", pick(r, []string{"a", "b", "a", "b", "resource", "rootResource"})
 			op.Src = "%" + op.Name
 			op.Opts = randOpts(map[string]int{op.Name: v})
 		case x < 5:
@@ -263,7 +266,7 @@ func genC17(seed uint64, run int, tier string) *Case {
 			op.Src = map[string]string{"context": "%context", "ucum": "%ucum", "unknown": "%nosuch"}[op.Tmpl]
 			op.Opts = randOpts(nil)
 		case x < 7:
-			op.Tmpl, op.Name = "select-var", pick(r, []string{"a", "b"})
+			op.Tmpl, op.Name = "select-var", pick(r, []string{"a", "b", "a", "b", "resource"})
 			op.Src = "Patient.name.select(%" + op.Name + ")"
 			op.Opts = randOpts(map[string]int{op.Name: pick(r, c17ValidVars)})
 		case x < 8:
@@ -329,7 +332,22 @@ func genC17(seed uint64, run int, tier string) *Case {
 			op.Tmpl = "method-identity"
 			kind := pick(r, []string{"method", "method", "methodv"})
 			t1, t2 := pick(r, []string{"A", "B", "C"}), pick(r, []string{"A", "B", "C", "D"})
-			switch r.n(3) {
+			switch r.n(5) {
+			case 3:
+				// a name that is a built-in only under WithExperimentalFuncs is free for a user function
+				// otherwise - and what it runs is the user's function, whatever an earlier Compile of the
+				// same text with the experimental functions produced
+				op.Src, op.Arg = "join()", t1
+				op.COpts = []COpt{{Kind: "fn", Name: "join", Fn: kind + ":" + t1}}
+				if r.p(0.3) {
+					op.COpts = append(op.COpts, COpt{Kind: "perm"})
+				}
+			case 4:
+				op.Src, op.Arg = "join()", "\x00" // the built-in: nothing asserted about its result here
+				op.COpts = []COpt{{Kind: "exp"}}
+				if r.p(0.3) {
+					op.COpts = append(op.COpts, COpt{Kind: "perm"})
+				}
 			case 0:
 				op.Src, op.Arg = "mt()", t1
 				op.COpts = []COpt{{Kind: "fn", Name: "mt", Fn: kind + ":" + t1}}
